@@ -287,5 +287,78 @@ impl AimdBudgetBuilder {
             r.limit_controller.config.min_limit == self.min_budget && r.limit_controller.config.max_limit == self.max_budget,   // #bounds_are_exactly_what_was_set [C08]
     //@body AimdBudgetBuilder::build
 }
+
+// ===== adaptive algorithm builders (C13) =====
+impl Duration {
+    pub fn from_millis(ms: u64) -> (r: Duration) ensures r.nanos == ms as u128 * 1_000_000 { Duration { nanos: ms as u128 * 1_000_000 } }
+}
+pub struct AimdBuilder { pub initial_limit: usize, pub min_limit: usize, pub max_limit: usize, pub increase_by: usize, pub decrease_factor: f64, pub latency_threshold: Duration }
+pub struct VegasBuilder { pub initial_limit: usize, pub min_limit: usize, pub max_limit: usize, pub alpha: usize, pub beta: usize }
+impl AimdBuilder {
+    pub fn default() -> (r: Self)
+        ensures 1 <= r.min_limit <= r.max_limit,   // #default_bounds_are_ordered [C13]
+    //@body AimdBuilder::default@Default file=alg
+    pub fn initial_limit(self, limit: usize) -> (r: Self)
+        ensures r.initial_limit == limit,   // #sets_initial_limit [C13]
+            r.min_limit == self.min_limit && r.max_limit == self.max_limit && r.increase_by == self.increase_by && r.decrease_factor == self.decrease_factor && r.latency_threshold == self.latency_threshold,   // #keeps_every_other_setting [C13]
+    //@body AimdBuilder::initial_limit file=alg
+    pub fn min_limit(self, limit: usize) -> (r: Self)
+        ensures r.min_limit == limit,   // #sets_min_limit [C13]
+            r.initial_limit == self.initial_limit && r.max_limit == self.max_limit && r.increase_by == self.increase_by && r.decrease_factor == self.decrease_factor && r.latency_threshold == self.latency_threshold,   // #keeps_every_other_setting [C13]
+    //@body AimdBuilder::min_limit file=alg
+    pub fn max_limit(self, limit: usize) -> (r: Self)
+        ensures r.max_limit == limit,   // #sets_max_limit [C13]
+            r.initial_limit == self.initial_limit && r.min_limit == self.min_limit && r.increase_by == self.increase_by && r.decrease_factor == self.decrease_factor && r.latency_threshold == self.latency_threshold,   // #keeps_every_other_setting [C13]
+    //@body AimdBuilder::max_limit file=alg
+    pub fn increase_by(self, amount: usize) -> (r: Self)
+        ensures r.increase_by == amount,   // #sets_increase_by [C13]
+            r.initial_limit == self.initial_limit && r.min_limit == self.min_limit && r.max_limit == self.max_limit && r.decrease_factor == self.decrease_factor && r.latency_threshold == self.latency_threshold,   // #keeps_every_other_setting [C13]
+    //@body AimdBuilder::increase_by file=alg
+    pub fn decrease_factor(self, factor: f64) -> (r: Self)
+        ensures r.decrease_factor == factor,   // #sets_decrease_factor [C13]
+            r.initial_limit == self.initial_limit && r.min_limit == self.min_limit && r.max_limit == self.max_limit && r.increase_by == self.increase_by && r.latency_threshold == self.latency_threshold,   // #keeps_every_other_setting [C13]
+    //@body AimdBuilder::decrease_factor file=alg
+    pub fn latency_threshold(self, threshold: Duration) -> (r: Self)
+        ensures r.latency_threshold == threshold,   // #sets_latency_threshold [C13]
+            r.initial_limit == self.initial_limit && r.min_limit == self.min_limit && r.max_limit == self.max_limit && r.increase_by == self.increase_by && r.decrease_factor == self.decrease_factor,   // #keeps_every_other_setting [C13]
+    //@body AimdBuilder::latency_threshold file=alg
+    pub fn build(self) -> (r: Aimd)
+        requires self.min_limit <= self.max_limit, self.max_limit <= 0x20_0000_0000_0000, f64_unit(self.decrease_factor),
+        ensures r.controller.wf(),   // #built_algorithm_starts_within_bounds [C13]
+            r.controller.config.min_limit == self.min_limit && r.controller.config.max_limit == self.max_limit,   // #bounds_are_exactly_what_was_set [C13]
+            r.controller.config.initial_limit == self.initial_limit && r.controller.config.increase_by == self.increase_by && r.controller.config.decrease_factor == self.decrease_factor
+                && r.latency_threshold == self.latency_threshold,   // #steps_and_threshold_are_exactly_what_was_set [C13]
+    //@body AimdBuilder::build file=alg
+}
+impl VegasBuilder {
+    pub fn default() -> (r: Self)
+        ensures 1 <= r.min_limit <= r.max_limit,   // #default_bounds_are_ordered [C13]
+    //@body VegasBuilder::default@Default file=alg
+    pub fn initial_limit(self, limit: usize) -> (r: Self)
+        ensures r.initial_limit == limit,   // #sets_initial_limit [C13]
+            r.min_limit == self.min_limit && r.max_limit == self.max_limit && r.alpha == self.alpha && r.beta == self.beta,   // #keeps_every_other_setting [C13]
+    //@body VegasBuilder::initial_limit file=alg
+    pub fn min_limit(self, limit: usize) -> (r: Self)
+        ensures r.min_limit == limit,   // #sets_min_limit [C13]
+            r.initial_limit == self.initial_limit && r.max_limit == self.max_limit && r.alpha == self.alpha && r.beta == self.beta,   // #keeps_every_other_setting [C13]
+    //@body VegasBuilder::min_limit file=alg
+    pub fn max_limit(self, limit: usize) -> (r: Self)
+        ensures r.max_limit == limit,   // #sets_max_limit [C13]
+            r.initial_limit == self.initial_limit && r.min_limit == self.min_limit && r.alpha == self.alpha && r.beta == self.beta,   // #keeps_every_other_setting [C13]
+    //@body VegasBuilder::max_limit file=alg
+    pub fn alpha(self, alpha: usize) -> (r: Self)
+        ensures r.alpha == alpha,   // #sets_alpha [C13]
+            r.initial_limit == self.initial_limit && r.min_limit == self.min_limit && r.max_limit == self.max_limit && r.beta == self.beta,   // #keeps_every_other_setting [C13]
+    //@body VegasBuilder::alpha file=alg
+    pub fn beta(self, beta: usize) -> (r: Self)
+        ensures r.beta == beta,   // #sets_beta [C13]
+            r.initial_limit == self.initial_limit && r.min_limit == self.min_limit && r.max_limit == self.max_limit && r.alpha == self.alpha,   // #keeps_every_other_setting [C13]
+    //@body VegasBuilder::beta file=alg
+    pub fn build(self) -> (r: Vegas)
+        requires self.min_limit <= self.max_limit, self.max_limit < usize::MAX,
+        ensures r.wf(),   // #built_algorithm_starts_within_bounds [C13]
+            r.min_limit == self.min_limit && r.max_limit == self.max_limit && r.alpha == self.alpha && r.beta == self.beta,   // #bounds_and_thresholds_are_exactly_what_was_set [C13]
+    //@body VegasBuilder::build file=alg
+}
 fn main() {}
 }
